@@ -201,12 +201,11 @@ def storeAll [DecidableEq α] (fill : α) : List (DKey × α) → List (DKey × 
 /-- the checks of `__setitem__` / `__getitem__` on a tuple of index lists.  The lists arrive as
 Python lists: an empty one becomes a float64 array and is rejected by the integer-dtype test. -/
 def fancyCheck (shape : List Nat) (idxs : List (List Int)) : Except Err Nat :=
-  match idxs with
-  | [] => .error .index
-  | l :: _ =>
-    if idxs.length ≠ shape.length then .error .notImplemented
-    else if idxs.any (fun m => m.length ≠ l.length) then .error .index
-    else .ok l.length
+  if idxs.length ≠ shape.length then .error .notImplemented
+  else
+    match idxs with
+    | [] => .error .index   -- `idxs[0]` of an empty tuple (0-d array, key `()`)
+    | l :: _ => if idxs.any (fun m => m.length ≠ l.length) then .error .index else .ok l.length
 
 def setFancy [DecidableEq α] (d : DOK α) (idxs : List (List Int)) (v : Val α) : DOK α × Option Err :=
   match fancyCheck d.shape idxs with
@@ -277,6 +276,28 @@ def allKeys : List Nat → List DKey
 /-- row-major dense listing (what `todense().ravel()` gives when every stored key is in range) -/
 def todense (d : DOK α) : List α := (allKeys d.shape).map (get d)
 
+/-- the key has the rank of the shape and every component is in range -/
+def InBI : DKey → List Nat → Prop
+  | [], [] => True
+  | i :: is, d :: ds => (0 ≤ i ∧ i < (d : Int)) ∧ InBI is ds
+  | _, _ => False
+
+instance decInBI : (k : DKey) → (s : List Nat) → Decidable (InBI k s)
+  | [], [] => isTrue trivial
+  | i :: is, d :: ds =>
+    match (inferInstance : Decidable (0 ≤ i ∧ i < (d : Int))), decInBI is ds with
+    | isTrue h1, isTrue h2 => isTrue ⟨h1, h2⟩
+    | isFalse h1, _ => isFalse (fun h => h1 h.1)
+    | _, isFalse h2 => isFalse (fun h => h2 h.2)
+  | [], _ :: _ => isFalse (fun h => h)
+  | _ :: _, [] => isFalse (fun h => h)
+
+/-- canonical state: the keys are distinct and inside the shape, no stored value is the fill value -/
+def Canon (d : DOK α) : Prop :=
+  (d.entries.map (·.1)).Nodup ∧ ∀ e ∈ d.entries, InBI e.1 d.shape ∧ e.2 ≠ d.fill
+
+instance [DecidableEq α] (d : DOK α) : Decidable (Canon d) := by unfold Canon; infer_instance
+
 /-! ### histories -/
 
 /-- one assignment `d[key] = value` -/
@@ -307,7 +328,10 @@ def step [DecidableEq α] (d : DOK α) : Op α → DOK α × Option Err
   | .set bare key v =>
     match tupleRoute d.shape bare key with
     | some ints => setFancy d [ints] v
-    | none => setitem d key v
+    | none =>
+      -- `all(isinstance(k, Iterable) for k in ())` is true: the empty tuple is taken for a tuple of index lists
+      if key = [] ∧ bare = false then setFancy d [] v
+      else setitem d key v
   | .fancy idxs v => setFancy d idxs v
   | .mask m v => setMask d m v
 
